@@ -86,7 +86,7 @@ def build(pipe: str, faults: list[dict], sid: str) -> dict:
         elif x["kind"] == "raise":
             inject["raise_in_transform"] = {"c": c, "f": f}
         elif x["kind"].startswith("raiseAtNode"):
-            inject["raise_at_node"] = {"c": c, "f": f, "n": {"raiseAtNodeEarly": 2, "raiseAtNodeMid": 12, "raiseAtNodeLate": 22}[x["kind"]]}
+            inject["raise_at_node"] = {"c": c, "f": f, "n": {"raiseAtNodeEarly": 2, "raiseAtNodeMid": 25, "raiseAtNodeLate": "after-first-change"}[x["kind"]]}
     argv = ["{dir}", "--output", "{out}", "--codemod-include", ",".join(spec["queue"])]
     res = {}
     if pipe in ("sast", "sast2"):
